@@ -22,134 +22,20 @@
 (*  - break / continue end the innermost enclosing loop's iteration;          *)
 (*  - exit() ends the current script; use(name) runs the named script on the  *)
 (*    same point with fresh variables, a callee's exit() ends only the        *)
-(*    callee, a callee's error aborts the caller (call site appended);        *)
+(*    callee, a callee's error aborts the caller (call site appended); this   *)
+(*    holds wherever the call is written, also inside an expression;          *)
 (*  - an error anywhere ends everything.                                      *)
 EXTENDS PlExpr
 
-BRes(st, out, cls, chain, fuel) == [st |-> st, out |-> out, cls |-> cls, chain |-> chain, fuel |-> fuel]
-Norm(st, fuel) == BRes(st, "normal", "", <<>>, fuel)
-RECURSIVE RepeatP(_, _)
-RepeatP(x, n) == IF n = 0 THEN <<>> ELSE <<x>> \o RepeatP(x, n - 1)
-\* an expression-level failure inside statement sid of script `name`
-Failed(st, cls, name, sid, fuel) == BRes([st EXCEPT !.wrap = 0], "error", cls, RepeatP(<<name, sid>>, 1 + st.wrap), fuel)
-
-PushS(st) == [st EXCEPT !.sc = Append(@, EmptyScope)]
-PopS(st, n) == [st EXCEPT !.sc = SubSeq(@, 1, Len(@) - n)]
-ClearTop(st) == [st EXCEPT !.sc[Len(st.sc)] = EmptyScope]
-
-SortAscR(ks) ==
-  LET Less(a, b) == \E i \in 1..(IF Len(a) < Len(b) THEN Len(a) ELSE Len(b)) + 1 :
-                      /\ \A j \in 1..(i - 1) : j <= Len(a) /\ j <= Len(b) /\ a[j] = b[j]
-                      /\ \/ (i > Len(a) /\ i <= Len(b))
-                         \/ (i <= Len(a) /\ i <= Len(b) /\ a[i] < b[i])
-      RECURSIVE Srt(_)
-      Srt(S) == IF S = {} THEN <<>>
-                ELSE LET mn == CHOOSE a \in S : \A b \in S \ {a} : Less(a, b) IN <<mn>> \o Srt(S \ {mn})
-  IN Srt({ks[i] : i \in 1..Len(ks)})
-RevR(s) == [i \in 1..Len(s) |-> s[Len(s) + 1 - i]]
-
-\* c: context [prog, name, mo, v2]
-RECURSIVE ExecList(_, _, _, _, _), ExecStmt(_, _, _, _), ForLoop(_, _, _, _), ForInLoop(_, _, _, _, _, _, _),
-          PickBranch(_, _, _, _, _)
-
-ExecList(ss, i, st, c, fuel) ==
-  IF i > Len(ss) THEN Norm(st, fuel)
-  ELSE IF fuel = 0 THEN BRes(st, "diverge", "", <<>>, 0)
-  ELSE LET r == ExecStmt(ss[i], st, c, fuel - 1)
-       IN IF r.out = "normal" THEN ExecList(ss, i + 1, r.st, c, r.fuel) ELSE r
-
-\* first truthy condition: [st, out(normal/error), j]
-PickBranch(s, j, st, c, fuel) ==
-  IF j > Len(s.cs) THEN [st |-> st, ok |-> TRUE, j |-> 0, cls |-> ""]
-  ELSE LET r == NoPend(Use1(st, Eval(s.cs[j], st))) IN
-       IF ~r.ok THEN [st |-> r.st, ok |-> FALSE, j |-> 0, cls |-> r.cls]
-       ELSE IF Truthy(r.st.heap, r.v) THEN [st |-> r.st, ok |-> TRUE, j |-> j, cls |-> ""]
-       ELSE PickBranch(s, j + 1, r.st, c, fuel)
-
-ExecStmt(s, st, c, fuel) ==
-  CASE s.k = "break" -> BRes(st, "break", "", <<>>, fuel)
-    [] s.k = "continue" -> BRes(st, "continue", "", <<>>, fuel)
-    [] s.k = "if" ->
-         LET p == PickBranch(s, 1, PushS(st), c, fuel) IN
-         IF ~p.ok THEN Failed(p.st, p.cls, c.name, s.sid, fuel)
-         ELSE IF p.j = 0 /\ ~s.he THEN Norm(PopS(p.st, 1), fuel)
-         ELSE LET r == ExecList(IF p.j # 0 THEN s.bs[p.j] ELSE s.eb, 1, PushS(p.st), c, fuel)
-              IN IF r.out \in {"error", "diverge"} THEN r ELSE [r EXCEPT !.st = PopS(r.st, 2)]
-    [] s.k = "for" ->
-         LET st1 == PushS(st)
-             i == IF NoneNode(s.i) THEN R(st1, VVoid) ELSE NoPend(Eval(s.i, st1))
-         IN IF ~i.ok THEN Failed(i.st, i.cls, c.name, s.sid, fuel)
-            ELSE LET r == ForLoop(s, i.st, c, fuel)
-                 IN IF r.out \in {"error", "diverge"} THEN r ELSE [r EXCEPT !.st = PopS(r.st, 1)]
-    [] s.k = "forin" ->
-         LET st1 == PushS(st)
-             it == NoPend(Use1(st1, Eval(s.it, st1)))
-         IN IF ~it.ok THEN Failed(it.st, it.cls, c.name, s.sid, fuel)
-            ELSE LET kd == KindOf(it.st.heap, it.v) IN
-                 IF ~(kd \in {"str", "list", "map"}) THEN Failed(it.st, "not-iterable", c.name, s.sid, fuel)
-                 ELSE LET items == CASE kd = "str" -> [k \in 1..Len(Runes(it.v.s)) |-> VStr(Runes(it.v.s)[k])]
-                                     [] kd = "list" -> it.st.heap[it.v.l].e
-                                     [] kd = "map" -> LET ks == SortAscR(it.st.heap[it.v.l].ks)
-                                                          o == IF c.mo = "desc" THEN RevR(ks) ELSE ks
-                                                      IN [k \in 1..Len(o) |-> VStr(o[k])]
-                          r == ForInLoop(s, items, 1, PushS(it.st), c, fuel, kd = "str")
-                      IN IF r.out \in {"error", "diverge"} THEN r ELSE [r EXCEPT !.st = PopS(r.st, 2)]
-    [] LeadUse(s).is /\ ~c.v2 /\ LeadUse(s).name \in DOMAIN c.prog ->
-         \* the callee first (same point and heap, fresh variables), then the statement itself with "no value" for the call
-         LET lu == LeadUse(s)
-             inner == ExecList(c.prog[lu.name], 1, [st EXCEPT !.sc = <<EmptyScope>>, !.pend = "", !.xt = FALSE],
-                               [c EXCEPT !.name = lu.name], fuel)
-         IN IF inner.out = "diverge" THEN inner
-            ELSE IF inner.out = "error" THEN [inner EXCEPT !.chain = @ \o RepeatP(<<c.name, s.sid>>, 1 + lu.wrap)]
-            ELSE LET r == Eval(s, [inner.st EXCEPT !.sc = st.sc, !.xt = st.xt, !.pend = ""]) IN
-                 IF ~r.ok THEN Failed(r.st, r.cls, c.name, s.sid, inner.fuel)
-                 ELSE IF r.st.xt THEN BRes([r.st EXCEPT !.pend = ""], "exit", "", <<>>, inner.fuel)
-                 ELSE Norm([r.st EXCEPT !.pend = ""], inner.fuel)
-    [] OTHER ->
-         LET r == IF DirectUse(s) THEN Eval(s, st) ELSE NoPend(Eval(s, st)) IN
-         IF ~r.ok THEN Failed(r.st, r.cls, c.name, s.sid, fuel)
-         ELSE IF r.st.pend # "" /\ r.st.pend \in DOMAIN c.prog
-           THEN \* use(name): the callee runs on the same point and heap with fresh variables
-                LET callee == r.st.pend
-                    inner == ExecList(c.prog[callee], 1, [r.st EXCEPT !.sc = <<EmptyScope>>, !.pend = "", !.xt = FALSE],
-                                      [c EXCEPT !.name = callee], fuel)
-                IN IF inner.out = "diverge" THEN inner
-                   ELSE IF inner.out = "error" THEN [inner EXCEPT !.chain = Append(@, <<c.name, s.sid>>)]
-                   ELSE Norm([inner.st EXCEPT !.sc = r.st.sc, !.xt = r.st.xt, !.pend = ""], inner.fuel)     \* a callee's exit() ends only the callee
-         ELSE IF r.st.xt THEN BRes([r.st EXCEPT !.pend = ""], "exit", "", <<>>, fuel)
-         ELSE Norm([r.st EXCEPT !.pend = ""], fuel)
-
-\* state st has the loop's scope on top
-ForLoop(s, st, c, fuel) ==
-  IF fuel = 0 THEN BRes(st, "diverge", "", <<>>, 0)
-  ELSE LET cond == IF NoneNode(s.c) THEN R(st, VBool(TRUE)) ELSE NoPend(Use1(st, Eval(s.c, st))) IN
-  IF ~cond.ok THEN Failed(cond.st, cond.cls, c.name, s.sid, fuel)
-  ELSE IF ~Truthy(cond.st.heap, cond.v) THEN Norm(cond.st, fuel)
-  ELSE LET b == ExecList(s.b, 1, PushS(cond.st), c, fuel - 1) IN
-       IF b.out \in {"error", "diverge"} THEN b
-       ELSE LET st2 == PopS(b.st, 1) IN
-            IF b.out = "break" THEN Norm(st2, b.fuel)
-            ELSE IF b.out = "exit" THEN BRes(st2, "exit", "", <<>>, b.fuel)
-            ELSE LET p == IF NoneNode(s.p) THEN R(st2, VVoid) ELSE NoPend(Eval(s.p, st2)) IN
-                 IF ~p.ok THEN Failed(p.st, p.cls, c.name, s.sid, b.fuel)
-                 ELSE ForLoop(s, p.st, c, b.fuel)
-
-\* state st has the iteration scope on top
-ForInLoop(s, items, i, st, c, fuel, strmode) ==
-  IF i > Len(items) THEN Norm(st, fuel)
-  ELSE IF fuel = 0 THEN BRes(st, "diverge", "", <<>>, 0)
-  ELSE LET st1 == [ClearTop(st) EXCEPT !.sc = SetVar(ClearTop(st).sc, IF c.v2 THEN s.v ELSE Alias(s.v), items[i])]
-           b == ExecList(s.b, 1, st1, c, fuel - 1)
-       IN IF b.out \in {"error", "diverge"} THEN b
-          ELSE IF b.out = "break" THEN Norm(b.st, b.fuel)
-          ELSE IF b.out = "exit" THEN BRes(b.st, "exit", "", <<>>, b.fuel)
-          ELSE ForInLoop(s, items, i + 1, b.st, c, b.fuel, strmode)
+\* ExecList / ExecStmt / ForLoop / ForInLoop / PickBranch: see the last section of PlExpr (one recursive group with Eval).
 
 \* a whole run: [status "done"|"error"|"diverge", log, pt, chain, cls]
 RefRun(p, mo) ==
   LET prog == [n \in DOMAIN p.scripts |-> Annotate(p.scripts[n])]
-      st0 == [sc |-> <<EmptyScope>>, heap |-> <<>>, pt |-> p.pt, log |-> <<>>, xt |-> FALSE, pend |-> "", v2 |-> p.v2, wrap |-> 0]
-      r == ExecList(prog[p.main], 1, st0, [prog |-> prog, name |-> p.main, mo |-> mo, v2 |-> p.v2], p.fuel)
+      c0 == [prog |-> prog, name |-> p.main, mo |-> mo, v2 |-> p.v2]
+      st0 == [sc |-> <<EmptyScope>>, heap |-> <<>>, pt |-> p.pt, log |-> <<>>, xt |-> FALSE, pend |-> "", v2 |-> p.v2, wrap |-> 0,
+              pre |-> <<>>, c |-> c0]
+      r == ExecList(prog[p.main], 1, st0, c0, p.fuel)
   IN [status |-> IF r.out = "error" THEN "error" ELSE IF r.out = "diverge" THEN "diverge" ELSE "done",
       log |-> r.st.log, pt |-> r.st.pt, cls |-> r.cls, chain |-> r.chain]
 =============================================================================
